@@ -19,7 +19,7 @@
 From Coq Require Import List ZArith Bool.
 From SVC Require Import Base.AMap Base.Res Base.Dec Model.Types Model.Pricing
   Model.Handlers Model.EndBlock Model.Step Proofs.Inv Proofs.TraceLemmas Proofs.TraceSettle
-  Proofs.TraceMoney.
+  Proofs.TraceMoney Proofs.DecProofs Proofs.StepSpecs_deposit Proofs.GapC02 Proofs.GapC02b Proofs.GapC02c Proofs.GapC02d Proofs.GapC02e.
 Import ListNotations.
 Open Scope Z_scope.
 
@@ -161,3 +161,140 @@ Theorem C02_transfer_moves : forall cfg s f t amt s',
   log s' = log s /\ forall x, bal s' x = bal s x - into (User f) x amt + into (User t) x amt.
 Proof. exact TraceMoney.transfer_moves. Qed.
 Print Assumptions C02_transfer_moves.
+
+(* ------------------------------------------------------------------ *)
+(* gap closing (audit C02, section (d)) *)
+
+(* WHICH settlement an accepted response gets is decided by the output: a non-empty output that
+   fails the schema (out <> 0, out_valid = false) is refunded in full to the consumer of the
+   context (and the binding is slashed, C04_respond_slash_iff), nothing is earned; a well-formed
+   or absent output pays tax = mul_trunc fee rate to the fee collector and adds fee - tax to the
+   earnings of the responding provider, no ordinary account moves.  d = the events appended *)
+Theorem C02_respond_settles : forall cfg s r who code out ov ok s',
+  Inv cfg s -> handle cfg s (ORespond r who code out ov ok) = Ok s' ->
+  exists q rc d,
+    get r (reqs s) = Some q /\ get (rid_ctx r) (ctxs s) = Some rc
+    /\ who = r_prov q /\ r_active q = true /\ log s' = d ++ log s
+    /\ if negb (out =? 0) && negb ov
+       then (exists amt, tr r d = [EvRespond r; EvRefund r (c_cons rc) (r_fee q);
+                                   EvSlash r (c_svc rc, who) amt])
+            /\ bal s' (User (c_cons rc)) = bal s (User (c_cons rc)) + r_fee q
+            /\ (forall a, a <> c_cons rc -> bal s' (User a) = bal s (User a))
+            /\ bal s' Escrow = bal s Escrow - r_fee q
+            /\ bal s' FeeColl = bal s FeeColl
+            /\ earned s' = earned s /\ own_earned s' = own_earned s
+       else tr r d = [EvRespond r; EvEarn r who (r_fee q - mul_trunc (r_fee q) (p_tax cfg));
+                      EvTax r (mul_trunc (r_fee q) (p_tax cfg))]
+            /\ 0 <= mul_trunc (r_fee q) (p_tax cfg) <= r_fee q
+            /\ bal s' FeeColl = bal s FeeColl + mul_trunc (r_fee q) (p_tax cfg)
+            /\ bal s' Escrow = bal s Escrow - mul_trunc (r_fee q) (p_tax cfg)
+            /\ bal s' Deposit = bal s Deposit
+            /\ (forall a, bal s' (User a) = bal s (User a))
+            /\ get0 who (earned s') = get0 who (earned s) + (r_fee q - mul_trunc (r_fee q) (p_tax cfg))
+            /\ (forall p, p <> who -> get0 p (earned s') = get0 p (earned s)).
+Proof. exact GapC02.respond_settles. Qed.
+Print Assumptions C02_respond_settles.
+
+(* liveness: a request still active when the EndBlock of its expiry height runs is settled in
+   that EndBlock: it gets its EvExpire among the events d appended by the block, its record is
+   gone afterwards (so no later settlement is possible: C02_request_trace, case None), and the
+   count vector (#issue, #respond, #earn, #tax, #refund, #slash, #expire) is the one of a
+   time-out: in super mode (fee 0) nothing moves, otherwise the whole fee is refunded to the
+   consumer of the context and the binding of the request's provider is slashed *)
+Theorem C02_settled_at_expiry : forall cfg s dt r q rc,
+  wf_cfg cfg -> Reach cfg s -> wf_op s (OEndBlock dt) ->
+  get r (reqs s) = Some q -> r_active q = true -> r_exp q = height s ->
+  get (rid_ctx r) (ctxs s) = Some rc ->
+  let s' := end_block cfg s dt in
+  Reach cfg s'
+  /\ get r (reqs s') = None
+  /\ In (EvIssue r (r_prov q) (c_cons rc) (r_fee q)) (log s)
+  /\ (exists d, log s' = d ++ log s /\ In (EvExpire r) d)
+  /\ (c_super rc = true -> r_fee q = 0 /\ counts r (log s') = (1, 0, 0, 0, 0, 0, 1)%nat)
+  /\ (c_super rc = false ->
+        0 < r_fee q /\ counts r (log s') = (1, 0, 0, 0, 1, 1, 1)%nat
+        /\ In (EvRefund r (c_cons rc) (r_fee q)) (log s')
+        /\ exists amt, In (EvSlash r (c_svc rc, r_prov q) amt) (log s')).
+Proof. exact GapC02b.timeout_settled. Qed.
+Print Assumptions C02_settled_at_expiry.
+
+(* a stored request is never overdue: its expiry height is not below the current height and its
+   context is queued for expiry at exactly that height; with C02_settled_at_expiry: no request
+   stays unsettled past the EndBlock of its expiry height *)
+Theorem C02_active_not_overdue : forall cfg s r q,
+  wf_cfg cfg -> Reach cfg s -> get r (reqs s) = Some q ->
+  height s <= r_exp q /\ In (r_exp q, rid_ctx r) (expq s).
+Proof. exact GapC02b.active_not_overdue. Qed.
+Print Assumptions C02_active_not_overdue.
+
+(* the tax is the floor of fee x rate (rates are 18-digit fixed point, PREC = 10^18) *)
+Theorem C02_tax_is_floor : forall n r, 0 <= n -> 0 <= r -> mul_trunc n r = (n * r) / PREC.
+Proof. exact DecProofs.mul_trunc_floor. Qed.
+Print Assumptions C02_tax_is_floor.
+
+(* per-step attribution of every event that mentions a request (audit facets 4, 6): for a step
+   of a reachable state, an event e about request r among the appended events d comes
+     - from EndBlock, and is an EvIssue of a request stamped with the height of this block, or
+       an expiry event of a request that was stored, still active and AT ITS EXPIRY HEIGHT:
+       EvExpire r, and outside super mode EvRefund r (consumer of its context) (its fee) or
+       EvSlash r (service of its context, its provider) _;
+     - or from an accepted response to r: EvRespond r, and, if the output is non-empty and
+       schema-invalid, EvRefund r consumer fee / EvSlash r binding (fraction of its deposit),
+       else EvEarn r provider (fee - tax) / EvTax r tax with tax = mul_trunc fee (p_tax cfg);
+     - from no other operation. *)
+Theorem C02_step_request_events : forall cfg s o s' d e r,
+  wf_cfg cfg -> Reach cfg s -> wf_op s o -> handle cfg s o = Ok s' ->
+  log s' = d ++ log s -> In e d -> ev_rid e = Some r ->
+  ((exists dt, o = OEndBlock dt)
+   /\ ((exists p c f, e = EvIssue r p c f /\ rid_height r = height s)
+       \/ (exists q rc, get r (reqs s) = Some q /\ r_active q = true /\ r_exp q = height s
+              /\ get (rid_ctx r) (ctxs s) = Some rc
+              /\ (e = EvExpire r
+                  \/ (c_super rc = false
+                      /\ (e = EvRefund r (c_cons rc) (r_fee q)
+                          \/ exists amt, e = EvSlash r (c_svc rc, r_prov q) amt))))))
+  \/ (exists w c out v, o = ORespond r w c out v true
+        /\ exists q rc, get r (reqs s) = Some q /\ r_active q = true
+             /\ get (rid_ctx r) (ctxs s) = Some rc
+             /\ (e = EvRespond r
+                 \/ if negb (out =? 0) && negb v
+                    then e = EvRefund r (c_cons rc) (r_fee q)
+                         \/ e = EvSlash r (c_svc rc, r_prov q)
+                                 (mul_trunc (dep_at s (c_svc rc, r_prov q)) (p_slash cfg))
+                    else e = EvEarn r (r_prov q) (r_fee q - mul_trunc (r_fee q) (p_tax cfg))
+                         \/ e = EvTax r (mul_trunc (r_fee q) (p_tax cfg)))).
+Proof. exact GapC02c.step_request_events. Qed.
+Print Assumptions C02_step_request_events.
+
+(* "in time": an expiry event is appended only by the EndBlock whose height is the expiry height
+   of the request, and only while the request is still active (so a request answered in its
+   expiry block, before EndBlock, does not expire: C02_settle_once) *)
+Theorem C02_expire_only_at_expiry : forall cfg s o s' d r,
+  wf_cfg cfg -> Reach cfg s -> wf_op s o -> handle cfg s o = Ok s' ->
+  log s' = d ++ log s -> In (EvExpire r) d ->
+  (exists dt, o = OEndBlock dt)
+  /\ exists q, get r (reqs s) = Some q /\ r_active q = true /\ r_exp q = height s.
+Proof. exact GapC02c.expire_only_at_expiry. Qed.
+Print Assumptions C02_expire_only_at_expiry.
+
+(* trace-level converse of the debit (C02_debit_matches_issue is the other direction): in every
+   reachable state a request issued with a positive fee -- i.e. outside super mode,
+   C02_stored_issued -- lies in a batch that was paid for: the log contains a debit of its
+   context, charged to the consumer named in the issue event, of at least its fee *)
+Theorem C02_issue_has_debit : forall cfg s r p cons f,
+  wf_cfg cfg -> Reach cfg s -> In (EvIssue r p cons f) (log s) -> 0 < f ->
+  exists amt, In (EvDebit (rid_ctx r) cons amt) (log s) /\ f <= amt.
+Proof. exact GapC02d.issue_has_debit. Qed.
+Print Assumptions C02_issue_has_debit.
+
+(* history level, the summary: in every reachable state every request that was ever issued is
+   either still pending (stored, active, not past its expiry height, nothing but its issue event
+   in the log) or has exactly one of the four closed traces -- and a pending request is settled
+   by the EndBlock of its expiry height at the latest (C02_settled_at_expiry) *)
+Theorem C02_issued_settled_or_pending : forall cfg s r p c f,
+  wf_cfg cfg -> Reach cfg s -> In (EvIssue r p c f) (log s) ->
+  (exists q, get r (reqs s) = Some q /\ r_active q = true /\ r_prov q = p /\ r_fee q = f
+        /\ height s <= r_exp q /\ tr r (log s) = [EvIssue r p c f])
+  \/ closed cfg r p c f (tr r (log s)).
+Proof. exact GapC02e.issued_settled_or_pending. Qed.
+Print Assumptions C02_issued_settled_or_pending.
